@@ -53,21 +53,34 @@ def debuggers : List String := ["pdb.set_trace", "ipdb.set_trace", "breakpoint"]
 
 /-- The callee's qualified name as the USER wrote it: the variables converter (the last pass) wraps every
 original load `x` into `ag__.ld(x)`, so `print(…)` reaches the output as `ag__.ld(print)(…)` and
-`pdb.set_trace()` as `ag__.ld(pdb).set_trace()`; `ag__.ld(·)` is transparent here. -/
+`pdb.set_trace()` as `ag__.ld(pdb).set_trace()`; `ag__.ld(·)` is transparent here — in EVERY name test of the
+checker (callee names, argument positions of `converted_call`, scope objects, body-role callbacks, the packing calls), so
+that the variables converter provably cannot change a verdict (`Proofs/C04Mono.lean`). -/
 def calleeQn : Expr → Option String
   | .name _ s _ => some s
   | .attr _ v a _ => (calleeQn v).map fun b => b ++ "." ++ a
-  | .call _ f [x] [] => if qnStr f == some "ag__.ld" then calleeQn x else none
-  | e => qnStr e
+  | .subscript _ v s _ =>
+      match sliceKind s with
+      | .noQn => none
+      | .lit r => (calleeQn v).map fun b => b ++ "[" ++ r ++ "]"
+      | .sub => match calleeQn s, calleeQn v with
+          | some x, some b => some (b ++ "[" ++ x ++ "]")
+          | _, _ => none
+  | .call _ f [x] [] => if calleeQn f == some "ag__.ld" then calleeQn x else none
+  | _ => none
+
+/-- a plain name, possibly behind `ag__.ld(·)` -/
+def ldName : Expr → Option String
+  | .name _ n _ => some n
+  | .call _ f [x] [] => if calleeQn f == some "ag__.ld" then ldName x else none
+  | _ => none
 
 /-- E3–E6 -/
 def allowedCallee (cfg : Cfg) (scopes : List String) (full : String) : Bool :=
   startsWith full "ag__." || scopes.any (fun c => startsWith full (c ++ "."))
     || debuggers.contains full || (full == "print" && !cfg.builtinsOn)
 
-def isNameOf (s : String) : Expr → Bool
-  | .name _ n _ => n == s
-  | _ => false
+def isNameOf (s : String) (e : Expr) : Bool := ldName e == some s
 
 /-- E7: is this call node itself the packing call allowed at position `pos`?
 `tuple(x)` (exactly one positional argument, no keywords) in ARGS; `dict(**kw, k=v)` (no positional argument) in KWARGS. -/
@@ -101,7 +114,7 @@ def offE (cfg : Cfg) (sc : List String) (w : Bool) (pos : Pos) : Expr → List O
   | .noneMarker => []
   | .call i f as ks =>
       (if callOk cfg sc w pos f as ks then [] else [⟨"Call", i, (calleeQn f).getD ""⟩])
-        ++ offE cfg sc w .normal f ++ offEs cfg sc w (argPositions ((qnStr f).getD "")) as ++ offEs cfg sc w [] ks
+        ++ offE cfg sc w .normal f ++ offEs cfg sc w (argPositions ((calleeQn f).getD "")) as ++ offEs cfg sc w [] ks
   | .boolop i isAnd vs => ⟨"BoolOp", i, if isAnd then "and" else "or"⟩ :: offEs cfg sc w [] vs
   | .unary i op e => (if op == "Not" then [⟨"Not", i, ""⟩] else []) ++ offE cfg sc w .normal e
   | .ifexp i t b e => ⟨"IfExp", i, ""⟩ :: (offE cfg sc w .normal t ++ offE cfg sc w .normal b ++ offE cfg sc w .normal e)
@@ -131,14 +144,18 @@ end
 /-! ### statements -/
 
 /-- names passed as body / orelse callbacks to the control-flow operators by one statement -/
+def argName (args : List Expr) (k : Nat) : List String :=
+  match args[k]? with
+  | some e => (ldName e).toList
+  | none => []
+
 def bodyRoleNames : Stmt → List String
   | .expr _ (.call _ f args _) =>
-      match (qnStr f).getD "", args with
-      | "ag__.if_stmt", _ :: .name _ b _ :: .name _ o _ :: _ => [b, o]
-      | "ag__.if_stmt", _ :: .name _ b _ :: _ => [b]
-      | "ag__.while_stmt", _ :: .name _ b _ :: _ => [b]
-      | "ag__.for_stmt", _ :: _ :: .name _ b _ :: _ => [b]
-      | _, _ => []
+      let q := (calleeQn f).getD ""
+      if q == "ag__.if_stmt" then argName args 1 ++ argName args 2
+      else if q == "ag__.while_stmt" then argName args 1
+      else if q == "ag__.for_stmt" then argName args 2
+      else []
   | _ => []
 
 /-- E8: functions of this block that are bodies of functionalised control flow -/
@@ -146,12 +163,20 @@ def blockRoles : List Stmt → List String
   | [] => []
   | s :: ss => bodyRoleNames s ++ blockRoles ss
 
+/-- `ag__.FunctionScope(...)` -/
+def isScopeCall : Expr → Bool
+  | .call _ f _ _ => (calleeQn f).getD "" == "ag__.FunctionScope"
+  | _ => false
+
+/-- the name bound by one with-item `ag__.FunctionScope(...) as <name>` -/
+def scopeName : Expr → List String
+  | .withitem _ c [v] => if isScopeCall c then (ldName v).toList else []
+  | _ => []
+
 /-- E6: names bound by `with ag__.FunctionScope(...) as <name>` -/
 def scopeNames : List Expr → List String
   | [] => []
-  | .withitem _ (.call _ f _ _) [.name _ n _] :: rest =>
-      (if (qnStr f).getD "" == "ag__.FunctionScope" then [n] else []) ++ scopeNames rest
-  | _ :: rest => scopeNames rest
+  | it :: rest => scopeName it ++ scopeNames rest
 
 mutual
 /-- `roles`: body-role function names of the enclosing block; `tail`: is this statement in tail position. -/
@@ -209,7 +234,7 @@ inductive OkE (cfg : Cfg) : List String → Bool → Pos → Expr → Prop
   | noneMarker : OkE cfg sc w pos .noneMarker
   /-- a call is fine only if exempt (E2–E7); `converted_call` fixes the positions of its arguments -/
   | call : callOk cfg sc w pos f as ks = true → OkE cfg sc w .normal f →
-      OkEs cfg sc w (argPositions ((qnStr f).getD "")) as → OkEs cfg sc w [] ks → OkE cfg sc w pos (.call i f as ks)
+      OkEs cfg sc w (argPositions ((calleeQn f).getD "")) as → OkEs cfg sc w [] ks → OkE cfg sc w pos (.call i f as ks)
   -- no rule for `.boolop`, none for `.ifexp`
   | unary : op ≠ "Not" → OkE cfg sc w .normal e → OkE cfg sc w pos (.unary i op e)
   | compare : compareOk cfg ops = true → OkE cfg sc w .normal l → OkEs cfg sc w [] rs → OkE cfg sc w pos (.compare i l ops rs)
